@@ -179,6 +179,25 @@ def run(ctx) -> None:
     src = " ".join(norm(f.iter) for f in loops)
     r3.check("self.degen" in src, "blocks iterate over self.degen (groups with gap ≤ threshold, size > 1)", uuk, loops[0] if loops else st,
              f"rotation blocks are taken from `{src}`, not from the degenerate groups")
+    # the groups are degenerate at ONE k-point: the block found in self.degen[ik] may only be rotated in the eigenvectors of that k-point
+    from .common import index_domain
+    kix = sl[0] if len(sl) == 3 else None
+    per_k = None
+    for lp_ in loops:
+        iv_, seqs_ = index_domain(lp_)
+        if iv_ is not None and any(q_ == "self.degen" for q_ in seqs_):
+            elem_ = lp_.target.elts[1] if isinstance(lp_.target, ast.Tuple) and len(lp_.target.elts) == 2 else None
+            inner_ok = elem_ is not None and any(l2 is not lp_ and norm(l2.iter) == norm(elem_) for l2 in loops)
+            per_k = (iv_, inner_ok)
+    if kix is not None and isinstance(kix, ast.Slice):
+        r3.violation(uuk, st, f"`{lhs}` rotates the block in the eigenvectors of ALL k-points, but the block is degenerate only at the k-point whose entry of "
+                     f"self.degen it came from: at the other k-points non-degenerate bands are mixed and every gauge-covariant quantity changes")
+    elif per_k is not None and kix is not None:
+        r3.check(norm(kix) == per_k[0] and per_k[1], "the block of self.degen[ik] is rotated in the eigenvectors of k-point ik only", uuk, st,
+                 f"`{lhs}`: the k-index `{norm1(kix)}` of the rotated eigenvectors is not the position `{per_k[0]}` of the group list in self.degen "
+                 f"(or the blocks do not come from that k-point's list)")
+    else:
+        r3.expect(False, "", uuk, st, f"Data_K.UU_K: cannot relate the k-index of `{lhs}` to the position in self.degen the block came from")
     deg = cls.methods.get("degen")
     if deg is None:
         raise AnalysisError("Data_K.degen vanished")
@@ -291,6 +310,8 @@ def run(ctx) -> None:
 from ..selftest import V  # noqa: E402
 
 SELFTEST = [
+    V("degenerate block rotated at every k-point (seeded C04-m5)", DK, "self._UU[ik, :, ib1:ib2] = self._UU[ik, :, ib1:ib2].dot(unitary_group.rvs(ib2 - ib1))",
+      "self._UU[:, :, ib1:ib2] = self._UU[:, :, ib1:ib2].dot(unitary_group.rvs(ib2 - ib1))", "fire", "R04.3"),
     V("random-gauge threshold looser than the calculators' (seeded C04-m4)", "wannierberri/data_K/data_K.py", "degen_thresh_random_gauge=1e-4,", "degen_thresh_random_gauge=1e-3,", "fire", "R04.4"),
     V("sea block clamped at the end of the first group (seeded C04-m3)", "wannierberri/data_K/data_K.py", "bandmax = min(bandmax, bands_in_range[0][0])", "bandmax = min(bandmax, bands_in_range[0][1])", "fire", "R04.4"),
     V("loop over a never-defined attribute (original defect)", DK, "for ik, deg in enumerate(self.degen):",
